@@ -16,27 +16,27 @@ Theorem plain_roundtrip_boolean : forall vs, len vs < 2 ^ 63 ->
 Proof. exact PlainProofs.plain_roundtrip_boolean. Qed.
 Print Assumptions plain_roundtrip_boolean.
 
-Theorem plain_roundtrip_int32 : forall vs, Forall PlainProofs.u32v vs -> len (plain_encode_int32 vs) < 2 ^ 64 ->
+Theorem plain_roundtrip_int32 : forall vs, Forall PlainProofs.u32v vs ->
   plain_decode_int32 (plain_encode_int32 vs) (len vs) = Ok (vs, len (plain_encode_int32 vs)).
 Proof. exact PlainProofs.plain_roundtrip_int32. Qed.
 Print Assumptions plain_roundtrip_int32.
 
-Theorem plain_roundtrip_int64 : forall vs, Forall PlainProofs.u64v vs -> len (plain_encode_int64 vs) < 2 ^ 64 ->
+Theorem plain_roundtrip_int64 : forall vs, Forall PlainProofs.u64v vs ->
   plain_decode_int64 (plain_encode_int64 vs) (len vs) = Ok (vs, len (plain_encode_int64 vs)).
 Proof. exact PlainProofs.plain_roundtrip_int64. Qed.
 Print Assumptions plain_roundtrip_int64.
 
-Theorem plain_roundtrip_int96 : forall vs, Forall u96v vs -> len (plain_encode_int96 vs) < 2 ^ 64 ->
+Theorem plain_roundtrip_int96 : forall vs, Forall u96v vs ->
   plain_decode_int96 (plain_encode_int96 vs) (len vs) = Ok (vs, len (plain_encode_int96 vs)).
 Proof. exact PlainProofs.plain_roundtrip_int96. Qed.
 Print Assumptions plain_roundtrip_int96.
 
-Theorem plain_roundtrip_float : forall vs, Forall PlainProofs.u32v vs -> len (plain_encode_float vs) < 2 ^ 64 ->
+Theorem plain_roundtrip_float : forall vs, Forall PlainProofs.u32v vs ->
   plain_decode_float (plain_encode_float vs) (len vs) = Ok (vs, len (plain_encode_float vs)).
 Proof. exact PlainProofs.plain_roundtrip_float. Qed.
 Print Assumptions plain_roundtrip_float.
 
-Theorem plain_roundtrip_double : forall vs, Forall PlainProofs.u64v vs -> len (plain_encode_double vs) < 2 ^ 64 ->
+Theorem plain_roundtrip_double : forall vs, Forall PlainProofs.u64v vs ->
   plain_decode_double (plain_encode_double vs) (len vs) = Ok (vs, len (plain_encode_double vs)).
 Proof. exact PlainProofs.plain_roundtrip_double. Qed.
 Print Assumptions plain_roundtrip_double.
@@ -46,7 +46,7 @@ Theorem plain_roundtrip_byte_array : forall vs, Forall ba_ok vs ->
 Proof. exact PlainProofs.plain_roundtrip_byte_array. Qed.
 Print Assumptions plain_roundtrip_byte_array.
 
-Theorem plain_roundtrip_flba : forall raw count flen, flen <> 0 -> len raw = count * flen -> len raw < 2 ^ 64 ->
+Theorem plain_roundtrip_flba : forall raw count flen, flen <> 0 -> len raw = count * flen ->
   plain_decode_flba (plain_encode_flba raw) count flen = Ok (raw, len (plain_encode_flba raw)).
 Proof. exact PlainProofs.plain_roundtrip_flba. Qed.
 Print Assumptions plain_roundtrip_flba.
@@ -177,8 +177,8 @@ Theorem plain_fixed_encode_conforms : forall k vs, Forall (fun v => v < 256 ^ N.
 Proof. exact PlainProofs.plain_fixed_encode_conforms. Qed.
 Print Assumptions plain_fixed_encode_conforms.
 
-Theorem plain_fixed_decode_accepts : forall k n bs vs rest,
-  spec_fixed_dec k n bs = Some (vs, rest) -> N.of_nat k * N.of_nat n < 2 ^ 64 ->
+Theorem plain_fixed_decode_accepts : forall k n bs vs rest, (0 < k)%nat ->
+  spec_fixed_dec k n bs = Some (vs, rest) ->
   dec_fixed k bs (N.of_nat n) = Ok (vs, N.of_nat k * N.of_nat n).
 Proof. exact PlainProofs.plain_fixed_decode_accepts. Qed.
 Print Assumptions plain_fixed_decode_accepts.
@@ -240,16 +240,16 @@ Proof. exact DeltaStrProofs.delta_length_decode_accepts. Qed.
 Print Assumptions delta_length_decode_accepts.
 
 (* ------------------------------------------------------------------------------------------ C08: never-fault *)
-Theorem plain_fixed_never_faults : forall k bs count, count * N.of_nat k < 2 ^ 64 -> forall f, dec_fixed k bs count <> Fault f.
+Theorem plain_fixed_never_faults : forall k bs count f, dec_fixed k bs count <> Fault f.
 Proof. exact PlainProofs.plain_fixed_never_faults. Qed.
 Print Assumptions plain_fixed_never_faults.
 
-Theorem plain_fixed_result_size : forall k bs count vs c, dec_fixed k bs count = Ok (vs, c) ->
-  count * N.of_nat k < 2 ^ 64 -> len vs = count /\ c <= len bs.
+Theorem plain_fixed_result_size : forall k bs count vs c, (0 < k)%nat -> dec_fixed k bs count = Ok (vs, c) ->
+  len vs = count /\ c <= len bs.
 Proof. exact PlainProofs.plain_fixed_result_size. Qed.
 Print Assumptions plain_fixed_result_size.
 
-Theorem plain_int96_never_faults : forall bs count, count * 12 < 2 ^ 64 -> forall f, plain_decode_int96 bs count <> Fault f.
+Theorem plain_int96_never_faults : forall bs count f, plain_decode_int96 bs count <> Fault f.
 Proof. exact PlainProofs.plain_int96_never_faults. Qed.
 Print Assumptions plain_int96_never_faults.
 
@@ -301,12 +301,12 @@ Theorem delta_strings_decode_result_size : forall data count cap ss c, delta_str
 Proof. exact DeltaStrProofs.delta_strings_decode_result_size. Qed.
 Print Assumptions delta_strings_decode_result_size.
 
-Theorem bss_decode_never_faults : forall k data count, count * k < 2 ^ 64 -> forall f, bss_decode k data count <> Fault f.
+Theorem bss_decode_never_faults : forall k data count f, bss_decode k data count <> Fault f.
 Proof. exact BssProofs.bss_decode_never_faults. Qed.
 Print Assumptions bss_decode_never_faults.
 
-Theorem bss_decode_result_size : forall k data count out, bss_decode k data count = Ok out -> count * k < 2 ^ 64 ->
-  len out = count * k.
+Theorem bss_decode_result_size : forall k data count out, bss_decode k data count = Ok out ->
+  len out = count * k /\ count * k <= len data.
 Proof. exact BssProofs.bss_decode_result_size. Qed.
 Print Assumptions bss_decode_result_size.
 
